@@ -535,6 +535,25 @@ func runC15(tier string, seed uint64, out *Out) {
 		emitDec(cd, s)
 	}
 
+	// a server cuts its chunks by its own buffer size, not by the client's constant: Hadoop's
+	// default is one byte more than the client's chunk, a larger io.compression.codec.snappy.buffersize
+	// gives larger ones still
+	for i, piece := range []int{218422, 256 * 1024, 300000, 436874} {
+		cd := codecs[0]
+		if quick && i == 3 {
+			continue
+		}
+		blocks := randomBlocks(rng, 1+i%2, piece+rng.Intn(piece), piece, i%2 == 1)
+		s, _ := hadoopEncode(cd, blocks)
+		emitDec(cd, s)
+	}
+	for i := 0; i < 40; i++ {
+		chunk := int(mock.codec.ChunkLen())
+		blocks := randomBlocks(rng, 1+rng.Intn(3), 6*chunk, chunk+1+rng.Intn(3*chunk), false)
+		s, _ := hadoopEncode(mock, blocks)
+		emitDec(mock, s)
+	}
+
 	// ---- (3) raw malformed input (C11): short strings exhaustively, random bytes, hostile lengths
 	for _, s := range allStrings([]byte{0x00, 0x01, 0x05, 0xff}, 6) {
 		emitDec(mock, s)
